@@ -307,16 +307,32 @@ var evaluated, accepted int64
 // checkCond: place the condition in each scope; if a validator accepts the policy, run it on every conforming environment.
 func checkCond(t *core.T, opName string, e *Expr, kinds []bool) bool {
 	acc := false
-	for _, sc := range scopes {
-		for _, when := range kinds {
-			pol := sc.mk()
+	for _, when := range kinds {
+		when := when
+		if checkClauses(t, opName, func() string { return fmt.Sprintf("when=%v: %s", when, e.String()) }, func(pol *xast.Policy) {
 			if when {
 				pol.When(e.ToAST())
 			} else {
 				pol.Unless(e.ToAST())
 			}
+		}) {
+			acc = true
+		}
+	}
+	t.AddStates(1)
+	return acc
+}
+
+// checkClauses: add the clauses to a policy of each scope form; if a validator accepts the
+// policy, run it on every conforming environment.
+func checkClauses(t *core.T, opName string, desc func() string, addClauses func(pol *xast.Policy)) bool {
+	acc := false
+	for _, sc := range scopes {
+		{
+			pol := sc.mk()
+			addClauses(pol)
 			okStrict, okPerm := false, false
-			in := func() string { return fmt.Sprintf("scope %s, when=%v: %s", sc.name, when, e.String()) }
+			in := func() string { return fmt.Sprintf("scope %s, %s", sc.name, desc()) }
 			if t.Protect("validate:"+opName, in(), func() { okStrict = vStrict.Policy("p", pol) == nil; okPerm = vPerm.Policy("p", pol) == nil }) {
 				continue
 			}
@@ -345,8 +361,96 @@ func checkCond(t *core.T, opName string, e *Expr, kinds []bool) bool {
 			t.AddTrans(int64(len(envs)))
 		}
 	}
-	t.AddStates(1)
 	return acc
+}
+
+// guards in one clause, uses in another: the clauses of a policy are conjoined left to
+// right, so what `when { G }` establishes holds in later clauses, what `unless { G }`
+// establishes is NOT G, and nothing flows backwards.
+func clauseGuards() *core.Family {
+	type target struct {
+		base *Expr
+		attr string
+	}
+	targets := []target{
+		{Var("principal"), "nick"}, {Var("principal"), "manager"}, {Var("principal"), "name"}, {path("principal", "addr"), "zip"}, {Var("resource"), "label"},
+		{Var("context"), "n"}, {Var("context"), "who"}, {path("context", "rec"), "b"},
+	}
+	uses := []func(x *Expr) *Expr{
+		func(x *Expr) *Expr { return Bin(OEq, x, L(Str("s"))) },
+		func(x *Expr) *Expr { return Bin(OLt, x, L(Long(1))) },
+		func(x *Expr) *Expr { return Bin(OEq, Access(x, "nick"), L(Str("s"))) },
+	}
+	type clause struct {
+		when bool
+		body func(has, use *Expr) *Expr
+	}
+	type form struct {
+		name string
+		cl   []clause
+	}
+	H := func(h, u *Expr) *Expr { return h }
+	NH := func(h, u *Expr) *Expr { return Un(ONot, h) }
+	U := func(h, u *Expr) *Expr { return u }
+	T := func(h, u *Expr) *Expr { return path("context", "ok") }
+	forms := []form{
+		{"when{has} when{use}", []clause{{true, H}, {true, U}}},
+		{"unless{has} when{use}", []clause{{false, H}, {true, U}}},
+		{"unless{!has} when{use}", []clause{{false, NH}, {true, U}}},
+		{"when{!has} when{use}", []clause{{true, NH}, {true, U}}},
+		{"when{use} when{has}", []clause{{true, U}, {true, H}}},
+		{"when{has} unless{use}", []clause{{true, H}, {false, U}}},
+		{"unless{has} unless{use}", []clause{{false, H}, {false, U}}},
+		{"unless{!has} unless{use}", []clause{{false, NH}, {false, U}}},
+		{"when{has} when{ok} when{use}", []clause{{true, H}, {true, T}, {true, U}}},
+		{"unless{has} when{ok} when{use}", []clause{{false, H}, {true, T}, {true, U}}},
+		{"when{has} unless{ok} when{use}", []clause{{true, H}, {false, T}, {true, U}}},
+		{"when{ok} unless{has} unless{ok} when{use}", []clause{{true, T}, {false, H}, {false, T}, {true, U}}},
+	}
+	tagForms := len(forms)
+	n := len(targets) * len(targets) * len(uses) * len(forms)
+	tagEnts := []*Expr{Var("principal"), Var("resource"), path("resource", "owner")}
+	nTag := len(tagEnts) * len(tagEnts) * tagForms
+	return &core.Family{
+		Name: "guards-across-clauses",
+		Desc: fmt.Sprintf("%d multi-clause forms (guard in a when / unless clause, use in a later or earlier when / unless clause, with clauses in between) x %d guarded paths x %d used paths x %d uses, and the same forms with hasTag / getTag on %d^2 entity expressions", len(forms), len(targets), len(targets), len(uses), len(tagEnts)),
+		N:    int64(n + nTag),
+		Run: func(t *core.T, i int64) {
+			x := int(i)
+			var f form
+			var has, use *Expr
+			if x < n {
+				f = forms[x%len(forms)]
+				x /= len(forms)
+				u := uses[x%len(uses)]
+				x /= len(uses)
+				tu := targets[x%len(targets)]
+				th := targets[x/len(targets)]
+				has, use = Has(th.base, th.attr), u(Access(tu.base, tu.attr))
+			} else {
+				x -= n
+				f = forms[x%tagForms]
+				x /= tagForms
+				eu := tagEnts[x%len(tagEnts)]
+				eh := tagEnts[x/len(tagEnts)]
+				has, use = Bin(OHasTag, eh, L(Str("k"))), Bin(OEq, Bin(OGetTag, eu, L(Str("k"))), L(Long(1)))
+			}
+			desc := func() string { return f.name + " with has=" + has.String() + " use=" + use.String() }
+			if checkClauses(t, "clauses:"+f.name, desc, func(pol *xast.Policy) {
+				for _, c := range f.cl {
+					if c.when {
+						pol.When(c.body(has, use).ToAST())
+					} else {
+						pol.Unless(c.body(has, use).ToAST())
+					}
+				}
+			}) {
+				t.Nontrivial()
+			}
+			t.AddStates(1)
+			t.SampleF(desc)
+		},
+	}
 }
 
 func pow(b, e int) int64 {
@@ -581,7 +685,7 @@ func Check() *core.Check {
 				return []*core.Family{{Name: "setup", Desc: "schema resolves", N: 1, Run: func(t *core.T, i int64) { t.Fail("harness-schema", schemaText, "resolves", e.Error()) }}}
 			}
 			sp := specs()
-			fams := []*core.Family{guards(), tagGuards(), unions(), depth1("depth1-unary", sp, leaves(), 1)}
+			fams := []*core.Family{guards(), clauseGuards(), tagGuards(), unions(), depth1("depth1-unary", sp, leaves(), 1)}
 			if tier == "thorough" {
 				fams = append(fams, depth1("depth1-binary", sp, leaves(), 2), depth1("depth1-if", gen.Ternary, leavesSmall(), 3))
 			} else {
